@@ -3,6 +3,9 @@
 package main
 
 import (
+	"encoding/pem"
+	"crypto/x509"
+	"crypto/rsa"
 	"fmt"
 	"sort"
 	"strings"
@@ -202,7 +205,7 @@ func vfC14(w *vfWorld) {
 	cfg.Store = vfPick(t, "c14.store", []string{"cookie", "redis"})
 	cfg.CookieRefresh, cfg.CookieExpire = 10*time.Minute, 6*time.Hour
 	cfg.Extra = append(cfg.Extra, "--pass-access-token=true", "--set-xauthrequest=true", "--skip-jwt-bearer-tokens=true")
-	flows := []string{"login", "login-profile", "bearer", "refresh", "plain-login", "plain-stale", "refresh-profile", "google-login", "backend-logout", "google-refresh", "azure-login"}
+	flows := []string{"login", "login-profile", "bearer", "refresh", "plain-login", "plain-stale", "refresh-profile", "google-login", "backend-logout", "google-refresh", "azure-login", "logingov-login"}
 	flow := flows[t.Choice("c14.flow", len(flows))]
 	if strings.HasPrefix(flow, "plain") {
 		cfg.Provider = "plain"
@@ -226,6 +229,13 @@ func vfC14(w *vfWorld) {
 		azVariant = vfPick(t, "c14.az-variant", []string{"mail", "otherMails", "userPrincipalName"})
 		azProfile = t.Prob("c14.az-profile", 750)
 	}
+	lgov := flow == "logingov-login"
+	if lgov {
+		// login.gov flavour: client authentication by a signed assertion, the ID token checked against the FIRST key of a key
+		// set that is fetched at every login (signature, expiry, nonce), the e-mail address always from the profile endpoint
+		cfg.Provider = "logingov"
+		cfg.Extra = []string{"--pass-access-token=true", "--set-xauthrequest=true", "--jwt-key=" + vfLoginGovClientKeyPEM()}
+	}
 	// a fifth of the OIDC worlds run the Keycloak flavour of the provider: JWT access tokens carry the roles
 	kc := cfg.Provider == "oidc" && (flow == "login" || flow == "refresh" || flow == "bearer") && t.Prob("c14.keycloak", 200)
 	if kc {
@@ -233,7 +243,7 @@ func vfC14(w *vfWorld) {
 	}
 	cfg.PKCE = vfPick(t, "c14.pkce", []string{"", "S256"})
 	audClaim := vfPick(t, "c14.audclaim", []string{"", "azp", "client_ids"})
-	if az {
+	if az || lgov {
 		audClaim = ""
 	}
 	if audClaim != "" && cfg.Provider != "plain" {
@@ -243,7 +253,7 @@ func vfC14(w *vfWorld) {
 	idp.Rotate = t.Bool("c14.rotate")
 	idp.IDTokenTTL, idp.AccessTTL = 3*time.Hour, 3*time.Hour
 	idp.AddUser(&vfUser{Name: "dave", Sub: "sub-dave", Email: "dave@example.com", EmailVerified: true, PreferredUsername: "dave"})
-	rotateKeys := t.Bool("c14.rotatekeys")
+	rotateKeys := t.Bool("c14.rotatekeys") && !lgov // (that flavour knows no key ids: it takes the first published key)
 	reps := w.Standard(cfg, 1)
 	rep := reps[0]
 	pp := cfg.ProxyPrefix
@@ -266,7 +276,7 @@ func vfC14(w *vfWorld) {
 			}
 		}
 	}
-	if azProfile {
+	if azProfile || lgov {
 		lacks["email"] = true
 	}
 	cs := &vfC14Case{Flow: flow, Provider: cfg.Provider, Store: cfg.Store}
@@ -370,7 +380,7 @@ func vfC14(w *vfWorld) {
 			idp.RotateKey()
 		}
 		switch flow {
-		case "login", "login-profile", "plain-login", "google-login", "azure-login":
+		case "login", "login-profile", "plain-login", "google-login", "azure-login", "logingov-login":
 			lg, _ := b.StartLogin(rep, pp+"/start?rd=%2Fapp", user)
 			pending = lg
 			return lg != nil
@@ -398,7 +408,7 @@ func vfC14(w *vfWorld) {
 	}
 	act := func(b *vfBrowser) *vfResp {
 		switch flow {
-		case "login", "login-profile", "plain-login", "google-login", "azure-login":
+		case "login", "login-profile", "plain-login", "google-login", "azure-login", "logingov-login":
 			return b.GET(rep, pending.CallbackTarget(pp))
 		case "bearer":
 			return b.Do(rep, &vfReq{Method: "GET", Target: "/api/x", NoJar: true, Headers: [][2]string{{"Authorization", "Bearer " + bearer}}})
@@ -434,7 +444,7 @@ func vfC14(w *vfWorld) {
 	}
 	okFree := false
 	switch flow {
-	case "login", "login-profile", "plain-login", "google-login", "azure-login":
+	case "login", "login-profile", "plain-login", "google-login", "azure-login", "logingov-login":
 		okFree = r0.Status == 302 && vfSessionCookieSet(r0, cfg.CookieName)
 	case "backend-logout":
 		okFree = r0.Status == 302 && r0.Location() == "/bye"
@@ -567,8 +577,8 @@ func vfC14(w *vfWorld) {
 					// ID token's content alone is promised
 					mustReject = false
 				}
-				if az && cls == "userinfo" {
-					// this flavour asks the profile endpoint once per claim it misses; only trouble that covers every one of
+				if (az || lgov) && cls == "userinfo" {
+					// this flavour asks the profile endpoint once per claim it misses (login.gov: for the address, then again on behalf of the generic enrichment); only trouble that covers every one of
 					// these calls (it starts at the first and persists) is certain to hit the one the e-mail address comes from
 					first := -1
 					for i, c := range calls {
@@ -581,6 +591,13 @@ func vfC14(w *vfWorld) {
 				if az && cls == "jwks" {
 					// ... and the access token's key may still be cached when the ID token's cannot be fetched
 					mustReject = false
+				}
+				if lgov && kd.Mint != nil {
+					// what this flavour checks of the ID token: it decodes, its signature verifies against the first published key,
+					// it has not expired, its nonce is the one sent
+					n := kd0.Name
+					mustReject = mustReject && (strings.HasPrefix(n, "id-token-") || n == "no-id-token" || n == "payload-not-json" || n == "wrong-key" || n == "alg-none" ||
+						n == "hs256-with-public-key" || n == "expired" || strings.HasPrefix(n, "nonce-") || (strings.HasPrefix(n, "omit:") && strings.Contains(n, "id_token")))
 				}
 				if flow == "google-login" && kd.Mint != nil {
 					// this provider takes the ID token from its token endpoint without verifying signature, issuer, audience,
@@ -601,7 +618,7 @@ func vfC14(w *vfWorld) {
 				if mustReject {
 					cs.MustReject++
 					switch flow {
-					case "login", "login-profile", "plain-login", "google-login", "azure-login":
+					case "login", "login-profile", "plain-login", "google-login", "azure-login", "logingov-login":
 						if vfSessionCookieSet(r, cfg.CookieName) || r.Status == 302 && r.Location() == "/app" {
 							w.violate("C14", "session-from-bad-response", flow+"/"+kd.Name, "%s: the callback established a session (status %d) from a failed / malformed provider response", label, r.Status)
 						}
@@ -685,7 +702,7 @@ func vfC14(w *vfWorld) {
 	flowSaved := flow
 	if prep(bh) {
 		switch flowSaved {
-		case "login", "login-profile", "plain-login", "google-login", "azure-login":
+		case "login", "login-profile", "plain-login", "google-login", "azure-login", "logingov-login":
 			r := act(bh)
 			if !(r.Status == 302 && vfSessionCookieSet(r, cfg.CookieName)) {
 				w.violate("C14", "not-recovered", flow, "after the fault sweep an honest login fails: status %d", r.Status)
@@ -713,4 +730,13 @@ func vfSetAud(c map[string]interface{}, v interface{}) {
 		}
 	}
 	c["aud"] = v
+}
+
+// vfLoginGovClientKeyPEM: the client's RSA key for private_key_jwt (fixed test key from keys.go, PKCS#1 PEM).
+func vfLoginGovClientKeyPEM() string {
+	k, ok := vfLoadKeys()[2].Priv.(*rsa.PrivateKey)
+	if !ok {
+		panic(vfHarnessError{"c14: key 2 is not an RSA key"})
+	}
+	return string(pem.EncodeToMemory(&pem.Block{Type: "RSA PRIVATE KEY", Bytes: x509.MarshalPKCS1PrivateKey(k)}))
 }
